@@ -11,4 +11,10 @@ import Crd.Props.IO
 #print axioms Crd.Props.C14.spelling_independent
 #print axioms Crd.Props.C14.move_laws
 #print axioms Crd.Props.C14.chain_laws
+#print axioms Crd.Props.C14.dominants_rotate
+#print axioms Crd.Props.C14.subdominants_rotate
+#print axioms Crd.Props.C14.positions_lt
+#print axioms Crd.Props.C14.foldl_mem_positions
+#print axioms Crd.Props.C14.pos_unique
+#print axioms Crd.Props.C14.net_rotation
 #print axioms Crd.Props.IO.io_sites_accounted
